@@ -693,10 +693,30 @@ def attr_assignments(f):
             if not tg:
                 continue
             assigned = set()
-            for l, ds in f.defs().items():
-                for d in ds:
-                    if f.dominates(tg[0], d[0]) and f.pred(tg[0]) == [s_['block']]:
-                        assigned.add(l)
+            roots = [tg[0]] if f.pred(tg[0]) == [s_['block']] else []
+            seen_roots = set()
+            while roots:
+                r_ = roots.pop()
+                if r_ in seen_roots:
+                    continue
+                seen_roots.add(r_)
+                for l, ds in f.defs().items():
+                    for d in ds:
+                        if f.dominates(r_, d[0]):
+                            assigned.add(l)
+                            # the match result materialised as a bool (`matches!(..)`, an inlined predicate): what is done under
+                            # `if <that bool>` is done under the literal test
+                            if f.local_ty(l) == 'bool' and 2 <= len(ds) <= 4 and strip(f.expr_of_def(d)) == ('int', 1, 'bool') and \
+                                    all(strip(f.expr_of_def(d2))[0] == 'int' for d2 in ds):
+                                for s2 in f.switches():
+                                    c2 = strip(s2['cond'])
+                                    neg = False
+                                    if c2[0] == 'un' and c2[1] == 'Not':
+                                        c2, neg = strip(c2[2]), True
+                                    if c2[:2] == ('var', l):
+                                        for lab2, t2 in s2['edges']:
+                                            if lab2 is (not neg) and f.pred(t2) == [s2['block']]:
+                                                roots.append(t2)
             out.append((lit, assigned, s_['span']))
     return out
 
